@@ -5,6 +5,8 @@ import XzVerif.Proofs.HashTable
 import XzVerif.Proofs.BinTree
 import XzVerif.Proofs.Writer1F
 import XzVerif.Proofs.Writer1I
+import XzVerif.Proofs.SrcFail
+import XzVerif.Props.C05
 /-
   C09 — I/O failures are never masked.
 
@@ -295,6 +297,122 @@ theorem C09_lzma_writer_success_only_with_valid_stream (c : W1.Cfg) (hc : W1.Cfg
 
 /-- non-vacuity: the never-failing plan is a plan, and `hist` of one write is `Write Close` -/
 example : W1F.hist [⟨#[1, 2, 3]⟩] = [.write ⟨#[1, 2, 3]⟩, .close] := rfl
+
+
+/-! ### READER SIDE: a source that fails (error other than io.EOF) where its bytes end
+
+  "If the underlying source of a reader fails with an error other than EOF at any offset, opening or reading returns that
+  error (or one wrapping it) and never a clean end of stream."  The three lazy reader models carry the failure
+  (`newReaderE true …`: wherever the code runs out of source bytes the outcome is the source's error `.err .src`, because
+  io.ReadFull, io.CopyN, io.LimitReader and the byte reader hand it on and only io.EOF is translated; tied to the real
+  readers on failing, fragmenting sources per call).  Proved by a per-call SIMULATION: as long as a call does not return
+  the source's error it returns exactly what the reader returns on the same bytes from a source that ends with io.EOF, so
+  * every call before the source's error is the plain run's call (no data invented, none lost);
+  * a clean end under a failing source is a clean end of the plain run on the same bytes — the stream was complete before
+    the failing offset; for a proper prefix of a well-formed stream that is impossible (C05): the failing run never ends
+    cleanly;
+  * the xz reader never ends cleanly at all (it needs the source's io.EOF to know that no further stream follows);
+  * no panic. -/
+
+/-- classic reader: what opening reports -/
+theorem C09_lzma_reader_open_on_failing_source (cfgCap : Nat) (inp : ByteArray) :
+    (∀ l, LazyDec.newReaderE true cfgCap inp = .ok l → LazyDec.newReader cfgCap inp = .ok (SrcFail.plainL l)) ∧
+    (∀ e, LazyDec.newReaderE true cfgCap inp = .error e → e = .src ∨ LazyDec.newReader cfgCap inp = .error e) :=
+  SrcFail.lazy_open_sim cfgCap inp
+
+/-- classic reader: the calls before the source's error are the plain run's calls; the error ends the schedule -/
+theorem C09_lzma_reader_failing_source_is_plain_until_error (l : LazyDec.LSt) (lens : List Nat) :
+    LazyDec.readSeq l lens = LazyDec.readSeq (SrcFail.plainL l) lens ∨
+    ∃ pre out, LazyDec.readSeq l lens = pre ++ [(out, .err .src)] ∧
+      ∃ rest, LazyDec.readSeq (SrcFail.plainL l) lens = pre ++ rest ∧ rest ≠ [] :=
+  SrcFail.lazy_seq_prefix l lens
+
+theorem C09_lzma2_reader_failing_source_is_plain_until_error (r : LazyDec2.R2) (lens : List Nat) :
+    LazyDec2.readSeq r lens = LazyDec2.readSeq (SrcFail.plainR r) lens ∨
+    ∃ pre out, LazyDec2.readSeq r lens = pre ++ [(out, .err .src)] ∧
+      ∃ rest, LazyDec2.readSeq (SrcFail.plainR r) lens = pre ++ rest ∧ rest ≠ [] :=
+  SrcFail.lazy2_seq_prefix r lens
+
+/-- helper: a schedule that ends with `.err .src` does not end with io.EOF -/
+theorem lastStat_src_ne_eof (pre : List (ByteArray × LazyDec.RStat)) (out : ByteArray) :
+    LazyDec.lastStat (pre ++ [(out, .err .src)]) ≠ .eof := by
+  unfold LazyDec.lastStat
+  simp
+
+/-- classic reader: a clean end under a failing source is the clean end of the plain run on the same bytes -/
+theorem C09_lzma_reader_clean_end_only_if_stream_complete (cfgCap : Nat) (inp : ByteArray) (l : LazyDec.LSt)
+    (h : LazyDec.newReaderE true cfgCap inp = .ok l) (lens : List Nat)
+    (he : LazyDec.lastStat (LazyDec.readSeq l lens) = .eof) :
+    ∃ lN, LazyDec.newReader cfgCap inp = .ok lN ∧ LazyDec.readSeq lN lens = LazyDec.readSeq l lens := by
+  refine ⟨SrcFail.plainL l, (SrcFail.lazy_open_sim cfgCap inp).1 l h, ?_⟩
+  rcases SrcFail.lazy_seq_prefix l lens with heq | ⟨pre, out, hpre, _⟩
+  · exact heq.symm
+  · rw [hpre] at he
+    exact absurd he (lastStat_src_ne_eof pre out)
+
+/-- LZMA2 reader: the same -/
+theorem C09_lzma2_reader_clean_end_only_if_stream_complete (cfgCap : Nat) (inp : ByteArray) (lens : List Nat)
+    (he : LazyDec.lastStat (LazyDec2.readSeq (LazyDec2.newReader2E true cfgCap inp) lens) = .eof) :
+    LazyDec2.readSeq (LazyDec2.newReader2 cfgCap inp) lens =
+      LazyDec2.readSeq (LazyDec2.newReader2E true cfgCap inp) lens := by
+  have hopen : (LazyDec2.newReader2E true cfgCap inp).err ≠ some (.err .src) := by
+    intro herr
+    -- a stored source error is what the first call returns
+    cases lens with
+    | nil => simp [LazyDec2.readSeq, LazyDec.lastStat] at he
+    | cons len rest =>
+      have : LazyDec2.readSeq (LazyDec2.newReader2E true cfgCap inp) (len :: rest) =
+          [(ByteArray.empty, .err .src)] := by
+        simp [LazyDec2.readSeq, LazyDec2.read, herr]
+      rw [this] at he
+      simp [LazyDec.lastStat] at he
+  have hplain := SrcFail.lazy2_open_sim cfgCap inp 0 hopen
+  rcases SrcFail.lazy2_seq_prefix (LazyDec2.newReader2E true cfgCap inp) lens with heq | ⟨pre, out, hpre, _⟩
+  · unfold LazyDec2.newReader2E at heq ⊢
+    unfold LazyDec2.newReader2
+    rw [← hplain]; exact heq.symm
+  · rw [hpre] at he
+    exact absurd he (lastStat_src_ne_eof pre out)
+
+/-- **xz reader: with a failing source no call of any schedule reports a clean end**, and opening never does -/
+theorem C09_xz_reader_failing_source_never_clean (cfgCap : Nat) (single : Bool) (inp : ByteArray) :
+    (∀ x, LazyXz.newReaderE true cfgCap single inp = .ok x → ∀ lens, ∀ q ∈ LazyXz.readSeq x lens, q.2 ≠ .eof) ∧
+    (∀ st, LazyXz.newReaderE true cfgCap single inp = .error st → st ≠ .eof) := by
+  refine ⟨fun x hx lens => ?_, fun st hst => ((SrcFail.lazyxz_open_sim cfgCap single inp).2 st hst).1⟩
+  exact SrcFail.lazyxz_seq_never_eof x lens ((SrcFail.lazyxz_open_sim cfgCap single inp).1 x hx).1
+
+/-- xz reader: the calls that succeed are the plain run's calls (nothing invented, nothing lost before the failure) -/
+theorem C09_xz_reader_failing_source_successful_calls_are_plain (x : LazyXz.X) (lens : List Nat)
+    (h : ∀ q ∈ LazyXz.readSeq x lens, q.2 = .ok ∨ q.2 = .eof) :
+    LazyXz.readSeq (SrcFail.plainX x) lens = LazyXz.readSeq x lens :=
+  SrcFail.lazyxz_seq_sim x lens h
+
+/-- classic reader on a failing source: never a panic, never ErrNoSpace, any input, any schedule -/
+theorem C09_lzma_reader_failing_source_no_panic (cfgCap : Nat) (inp : ByteArray) (l : LazyDec.LSt) (lens : List Nat)
+    (h : LazyDec.newReaderE true cfgCap inp = .ok l) :
+    ∀ q ∈ LazyDec.readSeq l lens, q.2 ≠ .err .panic ∧ q.2 ≠ .err .noSpace :=
+  SrcFail.lazy_srcfail_no_panic cfgCap inp l lens h
+
+open Lzma LazyDec in
+/-- **the property for the classic format**: the source fails at offset k inside a well-formed stream (unknown size, end
+    marker) — no schedule ends cleanly -/
+theorem C09_lzma_reader_source_failure_inside_stream_never_clean (cfgCap : Nat) (hdr : Lzma1.Header) (ops : List RawOp)
+    (hlc : hdr.props.lc ≤ 8) (hlp : hdr.props.lp ≤ 4) (hpb : hdr.props.pb ≤ 4) (hdc : hdr.dictCap < 2 ^ 32)
+    (hcfg : effCap cfgCap ≤ max hdr.dictCap 4096)
+    (hops : OpsOk {} { out := .empty, dictStart := 0, cap := max (effCap cfgCap) (max hdr.dictCap 4096) } ops)
+    (hsize : hdr.size = none) (k : Nat) (hk : k < (Lzma1.encode hdr ops.toArray true).size)
+    (l : LSt) (h : newReaderE true cfgCap ((Lzma1.encode hdr ops.toArray true).extract 0 k) = .ok l) (lens : List Nat) :
+    lastStat (readSeq l lens) ≠ .eof := by
+  intro he
+  obtain ⟨lN, hN, hseq⟩ := C09_lzma_reader_clean_end_only_if_stream_complete cfgCap _ l h lens he
+  have := Props.C05.C05_lazy_lzma_prefix_never_clean_unknown cfgCap hdr ops hlc hlp hpb hdc hcfg hops hsize k hk lN hN lens
+  rw [hseq] at this
+  exact this he
+
+/-- non-vacuity: on the empty input the failing-source reader reports the source's error when opened, the plain one an
+    unexpected end -/
+example : (LazyDec.newReaderE true 0 ByteArray.empty).toOption.isNone = true ∧
+    (LazyXz.newReaderE true 0 false ByteArray.empty).toOption.isNone = true := by decide
 
 
 end Props.C09
